@@ -10,7 +10,7 @@ import implenv
 from implenv import res as ires
 
 INFO = {
-    'proof_files': ['Proofs/ExtractProofs.v', 'Proofs/DecodeRoundTrip.v'],
+    'proof_files': ['Proofs/ExtractProofs.v', 'Proofs/DecodeRoundTrip.v', 'Proofs/CrossMode.v', 'Proofs/GdbRunsA.v', 'Proofs/GdbRunsB.v', 'Proofs/IsolationRuns.v'],
     'assumptions': [
         'theorems are about WD.Extract over an abstract closure (signature, types[], argument union slots, sender id); tied to backends/gdb_plugin/extract.py by running the real extract_message / received_message / sent_message on a fake gdb.Value graph with libwayland\'s struct and field names (pointer-offset access via _fast_access included)',
         'GDB\'s Python API and the memory layout are replaced by harness/fakegdb (validated against gdb 13.1 for the wl_fixed_to_double expression); reading a union member other than the one the signature names is garbage in reality and an error in the fake',
@@ -252,6 +252,7 @@ def run(res):
         res.disagree('in-kernel replay differs from extracted model', None, None, out[-500:], sig={'entry': 'kernel-replay'})
     real_gdb_validation(res)
     gdb_sessions(res)
+    cross_mode_sessions(res)
     res.rule = ('closures over every signature of the type codes i u f s o n a h (optional version prefix, ? markers, 0..20 arguments, arguments after arrays of every length, '
                 'null/non-null strings and objects, typed/untyped new ids) read on client side, server side and when sent; plus the same closure printed (model Render) and decoded by log mode; '
                 'non-trivial = at least two argument kinds; distinct by closure')
@@ -296,6 +297,82 @@ def wire_of(cl, kind, target, t):
     return [t, [], [], 1 if kind == 2 else 0, target, sender, name, wargs]
 
 
+def cross_mode_pair(msgs, d):
+    """the SAME messages of one connection through /repo's GDB mode (closure by closure, what extraction returns for them)
+    and through /repo's log mode (libwayland's print-out of them, line by line); returns the two recorded connections in
+    canonical form (the identifier is blanked by canon_conn) or a reason why the pair is outside the theorem's hypotheses"""
+    import implgdb
+    import implsession
+    import world
+    pms = [world.pmsg_of(m, d) for m in msgs]
+    gev = [['gmsg', 'gdb_conn:0x55550000', 1, pm] for pm in pms]
+    gouts, gfinal = common.time_limited(20, lambda: implgdb.GdbRunner([None, None, 0, 1, 1], gev).run())
+    for o in gouts:
+        for x in o:
+            if x[0] == 'raise' and x[1] != 1:
+                return None, None, 'decoding switch'       # log mode switches decoding off after a non-RuntimeError (C18); side condition log_accepts
+    lev = [['msg', m] for m in msgs]
+    louts, lfinal = common.time_limited(20, lambda: implsession.LogRunner([None, None, 0, 1, 0], lev, lambda e: world.render_line(e[1], d)).run())
+    # the log runner reads to end of input, which closes every connection (C03_eof_closes); the theorem compares before end of input
+    for c in lfinal[0]:
+        c[3] = 1
+    return gfinal[0], lfinal[0], None
+
+
+def cross_mode_sessions(res):
+    """C09_cross_mode_single on the implementation itself: one connection's messages recorded by GDB mode and by log mode
+    are the same connection (name, role, title, app id, object table with times, messages with resolved targets and arguments)"""
+    import random as _r
+    import world
+    rnd = _r.Random(res.seed * 3571 + 9)
+    n = 120 if res.tier == 'quick' else 5000
+    skipped = 0
+    for _ in range(n):
+        d, items = world.gen_history(rnd, n_conns=1, n_events=rnd.choice([3, 10, 25, 60]), chatter=0.0, tags=[None], dialect=world.DIALECTS[2])
+        msgs = [dict(it[2], tag=None) for it in items if it[0] == 'msg']
+        if not msgs:
+            continue
+        res.evaluations += 1
+        try:
+            g, l, why = cross_mode_pair(msgs, d)
+        except (Exception, common.ImplTimeout) as e:
+            res.disagree('cross-mode session raised', dict(cross_mode=msgs, dialect=d), None, repr(e), sig={'entry': 'cross-mode', 'exception': type(e).__name__})
+            continue
+        if why:
+            skipped += 1
+            continue
+        res.count('cross_mode_sessions')
+        if g != l:
+            # shrink: shortest prefix on which the two modes differ
+            lo = msgs
+            for k in range(1, len(msgs) + 1):
+                try:
+                    g2, l2, w2 = cross_mode_pair(msgs[:k], d)
+                except (Exception, common.ImplTimeout):
+                    break
+                if not w2 and g2 != l2:
+                    lo, g, l = msgs[:k], g2, l2
+                    break
+            res.disagree('GDB mode and log mode record different connections for the same messages', dict(cross_mode=lo, dialect=d), l, g,
+                         sig={'entry': 'cross-mode', 'detail': cross_diff(g, l)}, theorem='C09_cross_mode_single')
+    res.extra['cross_mode_outside_hypotheses'] = skipped
+
+
+def cross_diff(g, l):
+    if len(g) != len(l):
+        return 'number of connections: gdb %d log %d' % (len(g), len(l))
+    names = ['name', 'id', 'role', 'open', 'title', 'app_id', 'messages', 'objects']
+    for cg, cl in zip(g, l):
+        for k, nm in enumerate(names):
+            if cg[k] != cl[k]:
+                if nm in ('messages', 'objects'):
+                    for j, (x, y) in enumerate(zip(cg[k], cl[k])):
+                        if x != y:
+                            return '%s[%d]: gdb %r log %r' % (nm, j, x, y)
+                return '%s: gdb %r log %r' % (nm, cg[k] if nm not in ('messages', 'objects') else len(cg[k]), cl[k] if nm not in ('messages', 'objects') else len(cl[k]))
+    return 'equal'
+
+
 def gdb_sessions(res):
     """closures as they are REPORTED inside a gdb session (resolution of what extraction returned, thread warning, listing)"""
     import cmdgen
@@ -336,10 +413,18 @@ def real_gdb_validation(res):
 def replay(dis):
     import implgdb
     from backends.gdb_plugin import extract
-    c = dis['input']
+    c = dis['input'] or {}
     if 'closure' in c and 'addr' in c:
-        print('impl :', impl_extract(implgdb.gdb, extract, c['closure'], c['kind'], c['addr'], c['target'], c['time']))
-        print('model:', common.model_eval('extract', [[c['kind'], c['addr'], c['target'], c['closure'], c['time']]], shards=1)[0])
-    else:
-        print(dis)
+        imp = impl_extract(implgdb.gdb, extract, c['closure'], c['kind'], c['addr'], c['target'], c['time'])
+        cid, mr, wf = common.model_eval('extract', [[c['kind'], c['addr'], c['target'], c['closure'], c['time']]], shards=1)[0]
+        print('impl :', imp)
+        print('model:', [cid, mr])
+        return 1 if (imp[1] != mr or (imp[1][0] == 'ok' and imp[0] != cid)) else 0
+    if 'cross_mode' in c:
+        g, l, why = cross_mode_pair(c['cross_mode'], c['dialect'])
+        print('gdb mode:', g)
+        print('log mode:', l)
+        print('outside hypotheses:', why, ' difference:', None if why else cross_diff(g, l))
+        return 1 if (not why and g != l) else 0
+    print(dis)
     return 0
